@@ -79,12 +79,12 @@ def lumped_cases(rng, d, ck, n):
     return dis
 
 
-def gen_loaded(rng, small=False):
+def gen_loaded(rng, small=False, allow_single=True):
     """antenna + sources + loads of every kind attached in every form, through the API"""
     from mininec.mininec import (Impedance_Load, Series_RLC_Load, Trap_Load, Laplace_Load,
                                  Skin_Effect_Load, Insulation_Load, Excitation)
     ant = antgen.gen_antenna(rng, max_pulses=14 if small else 22)
-    if rng.random() < 0.25 and ant['family'] in ('vee', 'ell', 'tee', 'star', 'monopole_top'):
+    if allow_single and rng.random() < 0.25 and ant['family'] in ('vee', 'ell', 'tee', 'star', 'monopole_top'):
         ant['wires'][0]['nseg'] = 1 if not ant['ground'] else ant['wires'][0]['nseg']
     media = None
     if ant['ground'] and rng.random() < 0.5:
